@@ -387,8 +387,19 @@ var AnalyzerBuiltinArity = &Analyzer{
 	Severity: SeverityError,
 	Doc:      "Check argument counts for calls to known builtin functions and special forms.\n\nELPS builtin functions have well-defined argument signatures. This check catches calls with too few or too many arguments before runtime. User-defined functions that shadow builtin names are automatically excluded, including names bound by let/let*/flet/labels/macrolet. Binding lists, formals lists and threading macro children are also excluded.",
 	Run: func(pass *Pass) error {
-		// Collect user-defined names so we don't flag shadowed builtins.
-		userDefs := UserDefined(pass.Exprs)
+		// Collect the names defined by defun/defmacro anywhere in the file so we
+		// don't flag globally shadowed builtins.  Parameter names are NOT part of
+		// this file-global set: they are scoped to their function's body by
+		// aritySkipNodes.
+		userDefs := make(map[string]bool)
+		WalkSExprs(pass.Exprs, func(sexpr *lisp.LVal, depth int) {
+			switch HeadSymbol(sexpr) {
+			case "defun", "defmacro":
+				if ArgCount(sexpr) >= 1 && sexpr.Cells[1].Type == lisp.LSymbol {
+					userDefs[sexpr.Cells[1].Str] = true
+				}
+			}
+		})
 
 		// Collect AST nodes where arity checking should be skipped.
 		skipNodes := aritySkipNodes(pass.Exprs)
@@ -462,41 +473,63 @@ func bindingList(sexpr *lisp.LVal) (*lisp.LVal, bool) {
 	return binds, kind.funBinding
 }
 
-// markLocallyShadowedCalls marks every call in form's subtree whose head is
-// one of the names form binds, so those calls are not checked against the
-// builtin arity table.
+// markShadowedIn marks every call in the given subtrees whose head is one of
+// names, so those calls are not checked against the builtin arity table.
+func markShadowedIn(nodes []*lisp.LVal, names map[string]bool, skip map[*lisp.LVal]bool) {
+	if len(names) == 0 || len(nodes) == 0 {
+		return
+	}
+	WalkSExprs(nodes, func(sexpr *lisp.LVal, depth int) {
+		if head := HeadSymbol(sexpr); head != "" && names[head] {
+			skip[sexpr] = true
+		}
+	})
+}
+
+// markFormalsScope marks the calls in body whose head is a parameter of formals.
+func markFormalsScope(formals *lisp.LVal, body []*lisp.LVal, skip map[*lisp.LVal]bool) {
+	params := make(map[string]bool)
+	CollectFormals(formals, params)
+	markShadowedIn(body, params, skip)
+}
+
+// markLocallyShadowedCalls marks the calls that can see one of the names a
+// binding form binds, following the evaluator's scope rules (lisp/op.go):
 //
-// The marking is scoped to the binding form's own subtree. A file-global name
-// set would be simpler but silently disables the check for that name
-// everywhere in the file: one unrelated (let ([map ...]) ...) in one function
-// would suppress a genuine (map 'list) arity error in another. builtin-arity
-// is a SeverityError check that gates the build, so it must not go quietly
-// dark outside the scope that actually rebinds the name.
+//	let      names are visible in the body only (initialisers see the outer scope)
+//	let*     a name is visible in later initialisers and in the body
+//	flet     function names are visible in the body only
+//	macrolet like flet
+//	labels   function names are visible in every binding's body and in the body
 //
-// Scoping to the whole form rather than to each binding's body is a
-// deliberate over-approximation — it costs nothing in practice and avoids
-// duplicating let/let*/flet/labels scope rules here.
+// and a function binding's own parameters are visible in that binding's body.
+// A call outside those regions still reaches the builtin and stays checked.
 func markLocallyShadowedCalls(form *lisp.LVal, binds *lisp.LVal, funBinding bool, skip map[*lisp.LVal]bool) {
-	local := make(map[string]bool)
+	head := HeadSymbol(form)
+	bound := make(map[string]bool)
 	for _, bind := range binds.Cells {
 		if bind == nil || bind.Type != lisp.LSExpr || len(bind.Cells) == 0 {
 			continue
 		}
+		if funBinding {
+			if len(bind.Cells) >= 2 {
+				markFormalsScope(bind.Cells[1], bind.Cells[2:], skip)
+			}
+		} else if head == "let*" {
+			markShadowedIn(bind.Cells[1:], bound, skip)
+		}
 		if name := bind.Cells[0]; name.Type == lisp.LSymbol {
-			local[name.Str] = true
-		}
-		if funBinding && len(bind.Cells) >= 2 {
-			CollectFormals(bind.Cells[1], local)
+			bound[name.Str] = true
 		}
 	}
-	if len(local) == 0 {
-		return
-	}
-	WalkSExprs([]*lisp.LVal{form}, func(sexpr *lisp.LVal, depth int) {
-		if head := HeadSymbol(sexpr); head != "" && local[head] {
-			skip[sexpr] = true
+	markShadowedIn(form.Cells[2:], bound, skip)
+	if head == "labels" {
+		for _, bind := range binds.Cells {
+			if bind != nil && bind.Type == lisp.LSExpr && len(bind.Cells) > 2 {
+				markShadowedIn(bind.Cells[2:], bound, skip)
+			}
 		}
-	})
+	}
 }
 
 // aritySkipNodes returns a set of AST nodes that should be excluded from
@@ -519,11 +552,13 @@ func aritySkipNodes(exprs []*lisp.LVal) map[*lisp.LVal]bool {
 			// Formals at position 2: (defun name (formals...) body...)
 			if ArgCount(sexpr) >= 2 {
 				skip[sexpr.Cells[2]] = true
+				markFormalsScope(sexpr.Cells[2], sexpr.Cells[3:], skip)
 			}
 		case "lambda":
 			// Formals at position 1: (lambda (formals...) body...)
 			if ArgCount(sexpr) >= 1 {
 				skip[sexpr.Cells[1]] = true
+				markFormalsScope(sexpr.Cells[1], sexpr.Cells[2:], skip)
 			}
 		case "thread-first", "thread-last":
 			// Children at positions 2+ are forms that get an extra arg
